@@ -85,6 +85,10 @@ def compare_system(c, obs, mout, check_clients=True, blob_order="loose"):
                 mm = clientgen.model_mirror(b)
                 if blob_order == "loose" and a != mm:
                     a, mm = loosen(a, mm), loosen(mm, a)
+                if a != mm and c["ops"][k][0] == "burst":
+                    # with several operations in flight the order in which properties first appear is a matter of timing
+                    a = sorted(([d[0], sorted(d[1], key=lambda v: v[0])] for d in a), key=lambda d: d[0])
+                    mm = sorted(([d[0], sorted(d[1], key=lambda v: v[0])] for d in mm), key=lambda d: d[0])
                 if a != mm:
                     da = {d[0]: {v[0]: v for v in d[1]} for d in a}
                     dm = {d[0]: {v[0]: v for v in d[1]} for d in mm}
